@@ -1,6 +1,7 @@
 package main
 
 import (
+	"go/constant"
 	"fmt"
 	"go/token"
 	"go/types"
@@ -898,6 +899,32 @@ func propC06Latest(c *Ctx, lt *ssa.Function, fStart *types.Var) {
 				}
 			}
 		}
+		// errNil: what the scenario says about the query's error (nil / non-nil): comparisons of it with nil that
+		// a helper returns as a VALUE (`return num, hash, err == nil, err`) are replaced by their outcome
+		var errNil *bool
+		substitute := func(v ssa.Value) ssa.Value {
+			if errNil == nil {
+				return v
+			}
+			if b, ok := v.(*ssa.BinOp); ok && (b.Op == token.EQL || b.Op == token.NEQ) && b.X == ssa.Value(scanErr) && isNilConst(b.Y) {
+				return ssa.NewConst(constant.MakeBool((b.Op == token.EQL) == *errNil), b.Type())
+			}
+			if v == ssa.Value(scanErr) && *errNil {
+				return ssa.NewConst(nil, v.Type())
+			}
+			if v == ssa.Value(scanErr) && !*errNil {
+				return nonNilErrorMarker(scanErr.Parent()) // handed on past the sentinel test: some other error
+			}
+			return v
+		}
+		valueTests := 0
+		for _, ref := range *scanErr.Referrers() {
+			if b, ok := ref.(*ssa.BinOp); ok && (b.Op == token.EQL || b.Op == token.NEQ) && isNilConst(b.Y) {
+				if t, f := boolEdges(b); len(t)+len(f) == 0 {
+					valueTests++
+				}
+			}
+		}
 		reachable := func(at *ssa.Return, cuts *Cuts) bool {
 			if at == nil {
 				return false
@@ -914,6 +941,9 @@ func propC06Latest(c *Ctx, lt *ssa.Function, fStart *types.Var) {
 							continue
 						}
 						vals := append([]ssa.Value{}, returnValues(r)...)
+						for i := range vals {
+							vals[i] = substitute(vals[i])
+						}
 						if n := len(vals); n > 0 && isErrorType(vals[n-1].Type()) && !isNilConst(vals[n-1]) {
 							if st := newPathFacts(h).At(r); definitelyNonNilError(vals[n-1], nil) || (st != nil && st.knownNonNil(vals[n-1])) {
 								if _, g := (&retScenario{reg: lreg, call: call, vals: vals}).errFact(extractOf(call, n-1)); g == nil {
@@ -930,8 +960,11 @@ func propC06Latest(c *Ctx, lt *ssa.Function, fStart *types.Var) {
 						for in := range cuts.Instrs {
 							scCuts.Instrs[in] = true
 						}
-						if hit, _ := reach(siteOf(call), isInstr(at), scCuts); hit {
+						if hit, path := reach(siteOf(call), isInstr(at), scCuts); hit {
 							any = true
+							if debugOn() {
+								fmt.Fprintf(os.Stderr, "R6.4 scenario: helper return %s vals %v reaches %s via %s\n", w.Pos(instrPos(r)), vals, w.Pos(instrPos(at)), pathString(path))
+							}
 						}
 					}
 					return any
@@ -941,6 +974,8 @@ func propC06Latest(c *Ctx, lt *ssa.Function, fStart *types.Var) {
 		}
 		// the query did not succeed: the scanned row must not be returned
 		c1 := liftBoolHelpers(lreg, newCuts().addEdges(isNil), nil)
+		no, yes := false, true
+		errNil = &no
 		for _, at := range rowAts {
 			// a return of a helper that hands the query's error on as it is is not yet a success
 			if at != nil && at.Parent() != lt {
@@ -949,7 +984,7 @@ func propC06Latest(c *Ctx, lt *ssa.Function, fStart *types.Var) {
 					continue
 				}
 			}
-			if len(isNil) == 0 || reachable(at, c1) {
+			if (len(isNil) == 0 && valueTests == 0) || reachable(at, c1) {
 				okGuard = false
 				if os.Getenv("SHOVELCHECK_DEBUG") != "" {
 					fmt.Fprintf(os.Stderr, "R6.4: row return %s reachable although the query failed (isNil edges %d)\n", w.Pos(instrPos(at)), len(isNil))
@@ -957,9 +992,28 @@ func propC06Latest(c *Ctx, lt *ssa.Function, fStart *types.Var) {
 			}
 		}
 		// the query did not report "no rows": no start/head arm
+		// ("no report of no rows" = the query succeeded, or failed with another error)
+		_, nonNilE := nilTestEdges(scanErr)
 		c2 := liftBoolHelpers(lreg, newCuts().addEdges(noRows), nil)
+		c2a := liftBoolHelpers(lreg, newCuts().addEdges(noRows).addEdges(nonNilE), nil)
+		c2b := liftBoolHelpers(lreg, newCuts().addEdges(noRows).addEdges(isNil), nil)
+		reachableOther := func(at *ssa.Return) bool {
+			errNil = nil
+			if !reachable(at, c2) {
+				return false
+			}
+			if valueTests == 0 {
+				return true
+			}
+			errNil = &yes
+			if reachable(at, c2a) {
+				return true
+			}
+			errNil = &no
+			return reachable(at, c2b)
+		}
 		for _, at := range otherAts {
-			if len(noRows) == 0 || reachable(at, c2) {
+			if len(noRows) == 0 || reachableOther(at) {
 				okGuard = false
 				if os.Getenv("SHOVELCHECK_DEBUG") != "" {
 					fmt.Fprintf(os.Stderr, "R6.4: start/head return %s reachable without ErrNoRows (edges %d)\n", w.Pos(instrPos(at)), len(noRows))
